@@ -1078,7 +1078,7 @@ Section Invariant.
   Lemma good_foreach_or_cond sp k : good (foreach_or_cond rg rp sp k).
   Proof.
     intros s0 s H. unfold foreach_or_cond. destruct (has_foreach sp); [|now apply good_cond].
-    unfold foreach_loop. destruct (s_foreach sp); auto.
+    unfold foreach_loop. cbv zeta.
     apply ext_lift; [exact H|intros fv]. apply ext_lift; [exact H|intros items].
     now apply good_foreach_items.
   Qed.
